@@ -60,14 +60,20 @@ def _tags(p):
 def impl_func(p):
     sp = _spectrum()
     x = as_input(p["x"], p["dkind"])
-    r = sp.speriodogram(x, NFFT=p["nfft"], detrend=False, scale_by_freq=False, window=p["window"])
+    nfft = p["nfft"]
+    if p.get("npint"):
+        nfft = [np.int64, np.int32, np.intp][p["npint"] - 1](nfft)
+    r = sp.speriodogram(x, NFFT=nfft, detrend=False, scale_by_freq=False, window=p["window"])
     return [np.asarray(r)]
 
 
 def impl_class(p):
     sp = _spectrum()
     x = as_input(p["x"], p["dkind"])
-    P = sp.Periodogram(x, window=p["window"], NFFT=p["nfft"], scale_by_freq=False)
+    nfft = p["nfft"]
+    if p.get("npint"):
+        nfft = [np.int64, np.int32, np.intp][p["npint"] - 1](nfft)     # e.g. 2**nextpow2(N): the library's own helper returns numpy.int64
+    P = sp.Periodogram(x, window=p["window"], NFFT=nfft, scale_by_freq=False)
     return [np.asarray(P.psd)]
 
 
@@ -201,7 +207,10 @@ def gen(rng, nrng, tier):
         x, dk = gen_data(nrng, N, cplx)
         nfft = nfft_choices(nrng, N)
         name = names[i % len(names)]
-        yield ("func" if i % 2 == 0 else "class", {"x": x, "dkind": dk, "nfft": nfft, "window": name})
+        q = {"x": x, "dkind": dk, "nfft": nfft, "window": name}
+        if i % 10 == 3:
+            q["npint"] = 1 + (i // 10) % 3
+        yield ("func" if i % 2 == 0 else "class", q)
     n2 = 40 if tier == "quick" else 400
     for i in range(n2):
         r = int(nrng.integers(2, 17)) if i % 5 else [1, 1, 2, 3][(i // 5) % 4]   # incl. one-row and square inputs
